@@ -421,6 +421,27 @@ class Check(Property):
                 for label, got in ((".to", go), (".ito (in place)", gi.magnitude)):
                     if not all(math.isclose(g, w, rel_tol=1e-9, abs_tol=1e-9) for g, w in zip(got, want_o)):
                         v.append(f"{tag}: {label} {other} of {xs} gives {list(got)!r}, the defining maps give {want_o!r}")
+            # a logarithmic unit inside a compound unit (spectral densities: dBm/Hz): the other units scale the linear value
+            if u._units[c["unit"]].reference:
+                per = u.UnitsContainer({c["unit"]: 1, "hertz": -1})
+                lin_per = u.Unit(u._units[c["unit"]].reference) / u.Unit("kilohertz")
+                got = u.Quantity(x, u.Unit(per)).to(lin_per).magnitude
+                if not math.isclose(got, lin_of(x) * 1000.0, rel_tol=1e-9):
+                    v.append(f"{tag}: {x} {c['unit']}/Hz -> {lin_per} gives {got!r}, the defining map gives {lin_of(x) * 1000.0!r}")
+                backc = u.Quantity(lin_of(x) * 1000.0, lin_per).to(u.Unit(per)).magnitude
+                if not math.isclose(backc, x, rel_tol=1e-9, abs_tol=1e-9):
+                    v.append(f"{tag}: {lin_of(x) * 1000.0} {lin_per} -> {c['unit']}/Hz gives {backc!r}, expected {x}")
+                for other in LOGS:
+                    if other == c["unit"] or u._units[other].reference != u._units[c["unit"]].reference:
+                        continue
+                    ro = P.proj.unit_by_key[other]
+                    so = float(ro["scale"]) if not isinstance(ro["scale"], regs.D.Irr) else ro["scale"].approx
+                    bo, fo = (float(ro["modifiers"][k]) if not isinstance(ro["modifiers"][k], regs.D.Irr) else ro["modifiers"][k].approx
+                              for k in ("logbase", "logfactor"))
+                    want_c = fo * math.log(lin_of(x) * 1000.0 / so) / math.log(bo)
+                    gc = u.Quantity(x, u.Unit(per)).to(u.Unit(u.UnitsContainer({other: 1, "kilohertz": -1}))).magnitude
+                    if not math.isclose(gc, want_c, rel_tol=1e-9, abs_tol=1e-9):
+                        v.append(f"{tag}: {x} {c['unit']}/Hz -> {other}/kHz gives {gc!r}, the defining maps give {want_c!r}")
         except Exception as exc:  # noqa: BLE001
             v.append(f"{tag}: raised {type(exc).__name__}: {exc}")
         return v
